@@ -22,7 +22,9 @@ CONSTANTS NsArgs,     \* namespace arguments of the qualifier operations (0=None
           DU,         \* declaration content tokens
           ClsU,       \* class ids (environment)
           BadArgs,    \* subset of {"none", "badtype"}
-          MaxItems,   \* longest add_cimobjects / compile list (1 or 2)
+          MaxItems,   \* longest add_cimobjects list (1 or 2)
+          MaxCompile, \* longest compile_mof_string list (1 or 2)
+          SameD,      \* TRUE: both entries of a 2-list carry the same content
           GenDepth    \* > 0: record the calls in `hist` (behaviour emission)
 
 VARIABLES si, s, bad, hist
@@ -33,11 +35,12 @@ Call(op, ns, q, d, arg, items, cls, uses) ==
    cls |-> cls, uses |-> uses]
 
 Item(q, d) == [q |-> q, d |-> d]
-ItemLists ==
+ItemLists(max) ==
   {<<Item(q, d)>> : q \in QU, d \in DU}
-  \cup (IF MaxItems < 2 THEN {}
-        ELSE {<<Item(p[1], d1), Item(p[2], d2)>> :
-                p \in {x \in QU \X QU : x[1] # x[2]}, d1 \in DU, d2 \in DU})
+  \cup (IF max < 2 THEN {}
+        ELSE {<<Item(p[1], dd[1]), Item(p[2], dd[2])>> :
+                p \in {x \in QU \X QU : x[1] # x[2]},
+                dd \in {y \in DU \X DU : ~SameD \/ y[1] = y[2]}})
 
 Use(loc, q) == [loc |-> loc, q |-> q]
 Q1 == CHOOSE q \in QU : \A p \in QU : q <= p
@@ -53,8 +56,10 @@ Calls ==
   \cup {Call(op, ns, 0, "", a, <<>>, "", <<>>) :
           op \in {"Get", "Delete"}, ns \in NsArgs, a \in BadArgs}
   \cup {Call("Enum", ns, 0, "", "ok", <<>>, "", <<>>) : ns \in NsArgs}
-  \cup {Call(op, ns, 0, "", "ok", it, "", <<>>) :
-          op \in {"AddObj", "Compile"}, ns \in NsArgs, it \in ItemLists}
+  \cup {Call("AddObj", ns, 0, "", "ok", it, "", <<>>) :
+          ns \in NsArgs, it \in ItemLists(MaxItems)}
+  \cup {Call("Compile", ns, 0, "", "ok", it, "", <<>>) :
+          ns \in NsArgs, it \in ItemLists(MaxCompile)}
   \cup {Call(op, ns, 0, "", "ok", <<>>, "", <<>>) :
           op \in {"AddNs", "RemoveNs"}, ns \in NsAdm}
   \cup {Call("CreateClass", ns, 0, "", "ok", <<>>, c, u) :
@@ -79,7 +84,9 @@ Do(c, mutate) ==
   /\ s' = Apply(s, e)
   /\ hist' = IF GenDepth > 0 THEN Append(hist, c) ELSE hist
 
-Next == \E c \in Calls, m \in BOOLEAN : Do(c, m)
+(* the run without client mutation differs only when the call left an alias *)
+Next == \E c \in Calls, m \in BOOLEAN :
+           (m \/ ImplStep(si, c)[3] # {}) /\ Do(c, m)
 Spec == Init /\ [][Next]_vars
 
 ImplRefinesReq == bad = {}
